@@ -1,6 +1,7 @@
 import PMH.Model.Basic
 import PMH.Model.Scalar
 import PMH.Model.MaxTracker
+import PMH.Model.InvHashGen
 import Std.Data.HashMap
 /-!
 # `pmhdriver`: line protocol in front of the executable models
@@ -49,10 +50,18 @@ def stepMt (st : DState) : List String → DState × String
     | _, _ => (st, "bad-op")
   | _ => (st, "bad-op")
 
+def stepIh : List String → String
+  | ["h64", x] => match parseHex x with | some n => toHexW 16 (InvHashGen.int64_hash (BitVec.ofNat 64 n)).toNat | none => "bad-op"
+  | ["i64", x] => match parseHex x with | some n => toHexW 16 (InvHashGen.int64_hash_inverse (BitVec.ofNat 64 n)).toNat | none => "bad-op"
+  | ["h32", x] => match parseHex x with | some n => toHexW 8 (InvHashGen.int32_hash (BitVec.ofNat 32 n)).toNat | none => "bad-op"
+  | ["i32", x] => match parseHex x with | some n => toHexW 8 (InvHashGen.int32_hash_inverse (BitVec.ofNat 32 n)).toNat | none => "bad-op"
+  | _ => "bad-op"
+
 def step (st : DState) (line : String) : DState × String :=
   match (line.trimAscii.toString.splitOn " ").filter (· ≠ "") with
   | "case" :: id :: _ => (st, "case " ++ id)
   | "mt" :: rest => stepMt st rest
+  | "ih" :: rest => (st, stepIh rest)
   | _ => (st, "bad-op")
 
 partial def loop (h : IO.FS.Stream) (out : IO.FS.Stream) (st : DState) : IO Unit := do
